@@ -186,7 +186,7 @@ fn scaling_case(seed: u64, run: u64, k: usize, thorough: bool) -> Case {
         ("prints", false) => 300,
         ("prints", true) => 350,
         (_, false) => 6_000,
-        (_, true) => 25_000,
+        (_, true) => 100_000,
     };
     let big = scaling_program(family, 4 * n);
     let small = scaling_program(family, n);
@@ -593,11 +593,16 @@ pub fn judge(case: &Case, ex: &Exec) -> Vec<Violation> {
     // CPU time (and more than a second of it), measured three times
     if case.kind == "scaling" && !ex.alt_cpu_us.is_empty() {
         let family = case.faults.get(0).cloned().unwrap_or_default();
+        if std::env::var("SIM_SCALE_DEBUG").is_ok() {
+            println!("scaling {}: big {} us, small {} us", family, ex.cpu_us, ex.alt_cpu_us[0]);
+        }
         let ratio_bad = |big: u64, small: u64| big > 1_000_000 && big > 10 * small.max(1);
         if ratio_bad(ex.cpu_us, ex.alt_cpu_us[0]) {
             let mut all = true;
             let mut last = (ex.cpu_us, ex.alt_cpu_us[0]);
             for _ in 0..2 {
+                // heartbeat for the supervisor's watchdog: this is slow on purpose
+                println!("K re-measuring a size family");
                 let t0 = thread_cpu_us();
                 let _ = crate::world::run_here(&case.scn, None);
                 let t1 = thread_cpu_us();
